@@ -665,7 +665,7 @@ func confirm(b *builder, prop string, path string, v violation) (bool, string) {
 	raceHits := 0
 	attempts := 5
 	if r.Race && strings.HasPrefix(v.Sig, "race|") {
-		attempts = 10 // the detector's bounded shadow history misses a given race on some runs, more often on a loaded machine
+		attempts = 30 // the detector's bounded shadow history misses a given race on some runs, more often on a loaded machine
 	}
 	for i := 0; i < attempts; i++ {
 		var out string
@@ -696,7 +696,7 @@ func confirm(b *builder, prop string, path string, v violation) (bool, string) {
 				return true, ""
 			}
 			if i == attempts-1 {
-				return false, "race report did not reproduce in 10 replays of the schedule"
+				return false, "race report did not reproduce in 30 replays of the schedule"
 			}
 			continue
 		}
